@@ -784,7 +784,7 @@ func (e *env) main(inClose, closeReturned *bool) {
 		w := model.NewWorld(p, EffectiveCfg(p))
 		for _, inst := range p.Instances {
 			t := p.TypeByName(inst.Type)
-			if t.Zero || !(inst.Preset || inst.Prefilled) {
+			if t.Zero || !(inst.Preset || inst.Prefilled || inst.Fallback) {
 				continue
 			}
 			for _, pt := range t.Points {
@@ -797,7 +797,8 @@ func (e *env) main(inClose, closeReturned *bool) {
 					continue
 				}
 				key := inst.ID + "." + pt.Field
-				if inst.Preset && pt.Single() && pt.Optional && r.Empty() && !r.SelfOnly {
+				fallback := inst.Fallback && pt.Single() && !r.Empty() && !r.Foreign
+				if fallback || inst.Preset && pt.Single() && pt.Optional && r.Empty() && !r.SelfOnly {
 					// an object of a fitting type that is not a component
 					tn := pt.Target
 					if pt.Kind != sdl.KPtr {
@@ -816,10 +817,20 @@ func (e *env) main(inClose, closeReturned *bool) {
 					obj := reflect.ValueOf(e.newObject(tn, h))
 					if obj.Type().AssignableTo(f.Type()) {
 						f.Set(obj)
-						if obs.Presets == nil {
-							obs.Presets = map[string]string{}
+						if fallback {
+							if obs.Fallbacks == nil {
+								obs.Fallbacks = map[string]string{}
+							}
+							obs.Fallbacks[key] = "preset:" + key
 						}
-						obs.Presets[key] = "preset:" + key
+						if !fallback {
+							// (a fallback is replaced by the container; a preset of an unsatisfiable
+							// optional point must still be there afterwards)
+							if obs.Presets == nil {
+								obs.Presets = map[string]string{}
+							}
+							obs.Presets[key] = "preset:" + key
+						}
 					}
 				}
 				if inst.Prefilled && !pt.Single() && len(r.Cands) != 0 && !t.Lazy && f.Kind() == reflect.Slice {
